@@ -57,6 +57,8 @@ J gen_hostile_srv(uint64_t seed, const J &ov);
 World *build_hostile_srv(const J &plan);
 J gen_hostile_cli(uint64_t seed, const J &ov);
 World *build_hostile_cli(const J &plan);
+J gen_sessions(uint64_t seed, const J &ov);
+World *build_sessions(const J &plan);
 
 static J gen_plan_inner(const std::string &scen, uint64_t seed, const J &ov);
 J gen_plan(const std::string &scen, uint64_t seed, const J &ov)
@@ -70,6 +72,7 @@ static J gen_plan_inner(const std::string &scen, uint64_t seed, const J &ov)
 	if (scen == "tunnel") return gen_tunnel(seed, ov);
 	if (scen == "hostile_srv") return gen_hostile_srv(seed, ov);
 	if (scen == "hostile_cli") return gen_hostile_cli(seed, ov);
+	if (scen == "sessions") return gen_sessions(seed, ov);
 	J p = J::obj(); p.set("scenario", scen); p.set("seed", (long long)seed); p.set("error", "unknown scenario");
 	return p;
 }
@@ -80,6 +83,7 @@ static World *build_world(const J &plan)
 	if (scen == "tunnel") return build_tunnel(plan);
 	if (scen == "hostile_srv") return build_hostile_srv(plan);
 	if (scen == "hostile_cli") return build_hostile_cli(plan);
+	if (scen == "sessions") return build_sessions(plan);
 	return nullptr;
 }
 
